@@ -250,6 +250,7 @@ structure Req where
   pathOK : Bool           -- PATH_INFO decodes as UTF-8
   path : Str              -- decoded PATH_INFO (for the catch-all page)
   urlRepr : Str           -- `repr(html.escape(request.url))`
+  json : Bool             -- `request.is_json_requested` (Accept starts with application/json)
   route : Route
 deriving Inhabited
 
@@ -257,6 +258,7 @@ deriving Inhabited
 structure ReqSlot where
   id : Nat
   urlRepr : Str
+  json : Bool
   deriving Repr, DecidableEq
 
 /-- the per-thread request and response objects of one application -/
@@ -352,7 +354,7 @@ def settle : Flow → List Event × Out
 
 /-- `request.__init__(environ)`: the reused request object is pointed at the new environ -/
 def Slots.initRequest (s : Slots) (r : Req) : Slots :=
-  { s with req := some { id := r.id, urlRepr := r.urlRepr } }
+  { s with req := some { id := r.id, urlRepr := r.urlRepr, json := r.json } }
 
 /-- `response.__init__()`: `BaseResponse.__init__` assigns `_status_line`, `_status_code`
 (through the `status` setter with the default), `_cookies = None`, `_headers = {}`, `body = ''` —
@@ -384,7 +386,7 @@ def handle (app : App) (s : Slots) (r : Req) : Slots × List Event × Out :=
 /-- after the re-initialisation nothing of the previous slots is left -/
 theorem reinit_eq (s : Slots) (r : Req) :
     (s.initRequest r).initResponse =
-      { req := some { id := r.id, urlRepr := r.urlRepr }, resp := RState.init } := rfl
+      { req := some { id := r.id, urlRepr := r.urlRepr, json := r.json }, resp := RState.init } := rfl
 
 /-! ### `_cast` -/
 
@@ -419,9 +421,49 @@ def urlOf (s : Slots) : Str :=
   | some q => q.urlRepr
   | none => "'http://127.0.0.1/'".toList
 
-/-- `default_error_handler(res)` (no JSON requested) -/
+/-- the HTML branch of `default_error_handler(res)` -/
 def defaultPage (s : Slots) (r : RState) (body : Out) : Out :=
   .text (renderPage r.line (urlOf s) (fmtBody body))
+
+def withResp (s : Slots) (st : RState) : Slots := { s with resp := st }
+
+def wantsJson (s : Slots) : Bool :=
+  match s.req with
+  | some q => q.json
+  | none => false
+
+/-- `json.dumps(res.body)` for the kinds of error bodies of the zoo; `none` = `TypeError` -/
+def jsonBody : Out → Option Str
+  | .falsy .str => some "\"\"".toList
+  | .falsy .none => some "null".toList
+  | .falsy .zero => some "0".toList
+  | .falsy .list => some "[]".toList
+  | .falsy .false_ => some "false".toList
+  | .falsy .dict => some "{}".toList
+  | .falsy .bytes => none
+  | .text t => some (jsonStr t)
+  | _ => none
+
+/-- `json.dumps(dict(body=res.body, exception=repr(res.exception), traceback=res.traceback))` for
+an error that carries no exception (`repr(None)`, `None`) -/
+def jsonPage (body : Out) : Option Str :=
+  (jsonBody body).map fun j =>
+    "{\"body\": ".toList ++ j ++ ", \"exception\": \"None\", \"traceback\": null}".toList
+
+/-- `response.headers['Content-Type'] = 'application/json'` -/
+def setJsonCtype (st : RState) : RState :=
+  let h := Hdrs.set st.headers "Content-Type".toList [HVal.good "application/json".toList]
+  { st with headers := h }
+
+/-- `Ombott.default_error_handler(res)`; `none` = it raises (`json.dumps` refuses the body).
+The JSON branch also sets `response.headers['Content-Type']`. -/
+def defaultHandler (s : Slots) (r : RState) (body : Out) : Option (Slots × Out) :=
+  if wantsJson s then
+    match jsonPage body with
+    | none => none
+    | some j =>
+      some (withResp s (setJsonCtype s.resp), Out.text j)
+  else some (s, defaultPage s r body)
 
 def errHandlerFor (app : App) (code : Nat) : Option ErrHandler :=
   (app.errHandlers.find? (·.1 == code)).map (·.2)
@@ -430,8 +472,6 @@ def errHandlerFor (app : App) (code : Nat) : Option ErrHandler :=
 inductive Cfg
   | run (cnt : Nat) (s : Slots) (out : Out)
   | done (s : Slots) (res : CastRes)
-
-def withResp (s : Slots) (st : RState) : Slots := { s with resp := st }
 
 /-- return point "empty output" -/
 def finishEmpty (s : Slots) : Cfg :=
@@ -496,7 +536,10 @@ def castOut (app : App) (fw : Bool) (cnt : Nat) (s : Slots) (out : Out) : Cfg :=
   | .resp true r body =>
     let s' := withResp s (apply r s.resp)
     match errHandlerFor app r.code with
-    | none => .run cnt s' (defaultPage s' r body)
+    | none =>
+      match defaultHandler s' r body with
+      | none => .done s' .raised
+      | some (s'', o) => .run cnt s'' o
     | some (.const o) => .run cnt s' o
     | some .body => .run cnt s' body
     | some .raises => .done s' .raised
@@ -517,7 +560,9 @@ def step (app : App) (fw : Bool) : Cfg → Cfg
     if cnt > Gen.wsgiCastMaxLoops then
       let e : RState := { code := 500, line := lineOfCode 500, headers := [], cookies := [] }
       let s' := withResp s (apply e s.resp)
-      castOut app fw cnt s' (defaultPage s' e (.text "too many iterations".toList))
+      match defaultHandler s' e (.text "too many iterations".toList) with
+      | none => .done s' .raised
+      | some (s'', o) => castOut app fw cnt s'' o
     else castOut app fw cnt s out
 
 /-- at most `n` iterations -/
